@@ -2543,6 +2543,34 @@ fn perturb_body<T: Readable + Writeable>(
 					);
 				}
 			}
+			// the same OUTPUT (features + commitment: that is its identity) twice, the copies differing in their range
+			// proof bytes only: still a duplicate entry
+			if li == 1 && n[li] >= 1 {
+				let a = p.usize_below(n[li]);
+				let mut dup = lists[li][a].clone();
+				if dup.len() > 34 + 8 + 16 {
+					let k = dup.len() - 1 - p.usize_below(600.min(dup.len() - 34 - 8 - 1));
+					dup[k] ^= 1 << p.below(8);
+					for after in [true, false] {
+						let mut l = lists[li].clone();
+						l.insert(if after { a + 1 } else { a }, dup.clone());
+						let mut ls = lists;
+						ls[li] = &l;
+						let mut c = counts;
+						c[li] += 1;
+						let bytes = assemble3(prefix, c, ls);
+						must_reject::<T>(
+							cx,
+							fam,
+							&format!("duplicate_outputs_other_proof_{}", enc),
+							&format!("n{}|after{}", n[li].min(9), after),
+							v,
+							&bytes,
+							Mode::Strict,
+						);
+					}
+				}
+			}
 			// counts inconsistent with the content that follows
 			let mut alts: Vec<(u64, &str)> = vec![
 				(counts[li] + 1, "plus1"),
@@ -4414,6 +4442,8 @@ fn finish(run: &Run, san: bool) -> ! {
 		("reject.Transaction.unsorted_kernels_v2", 5),
 		("reject.Transaction.duplicate_inputs_v3", 5),
 		("reject.Transaction.duplicate_outputs_v1", 5),
+		("reject.Transaction.duplicate_outputs_other_proof_v1", 5),
+		("reject.TransactionBody.duplicate_outputs_other_proof_v3", 5),
 		("reject.Transaction.duplicate_kernels_v3", 5),
 		("reject.Block.unsorted_kernels_v3", 5),
 		("reject.Block.duplicate_inputs_v2", 5),
